@@ -328,3 +328,69 @@ func (v *VerifState) HandlerCount(method string) int {
 	}
 	return len(v.s.handlers[method])
 }
+
+// Owners lists, per method, the owner of every handler in dispatch order:
+// the connection's target for handlers tracked by a connection entry,
+// "untracked" otherwise (RegisterService handlers).
+func (v *VerifState) Owners() map[string][]string {
+	out := map[string][]string{}
+	if v.s == nil {
+		return out
+	}
+	owner := map[*handler]string{}
+	for cc, cl := range v.s.conns {
+		for _, h := range cl.handlers {
+			owner[h] = cc.Target()
+		}
+	}
+	for name, hds := range v.s.handlers {
+		l := make([]string, 0, len(hds))
+		for _, h := range hds {
+			if o, ok := owner[h]; ok {
+				l = append(l, o)
+			} else {
+				l = append(l, "untracked")
+			}
+		}
+		out[name] = l
+	}
+	return out
+}
+
+// Conns lists, per registered connection target, the methods of its tracked
+// handlers (in order) and the descriptor hash.
+func (v *VerifState) Conns() map[string]VerifConn {
+	out := map[string]VerifConn{}
+	if v.s == nil {
+		return out
+	}
+	for cc, cl := range v.s.conns {
+		vc := VerifConn{Hash: fmt.Sprintf("%x", cl.fdHash)}
+		for _, h := range cl.handlers {
+			vc.Methods = append(vc.Methods, h.method)
+		}
+		out[cc.Target()] = vc
+	}
+	return out
+}
+
+type VerifConn struct {
+	Methods []string
+	Hash    string
+}
+
+// PickOwner runs pickMethodHandler once and names the owner of the result.
+func (v *VerifState) PickOwner(method string) (string, error) {
+	h, err := v.s.pickMethodHandler(method)
+	if err != nil {
+		return "", err
+	}
+	for cc, cl := range v.s.conns {
+		for _, ch := range cl.handlers {
+			if ch == h {
+				return cc.Target(), nil
+			}
+		}
+	}
+	return "untracked", nil
+}
